@@ -30,7 +30,7 @@ PID = "C36"
 ENGINE = "E2-raw-drivers"
 TECHNIQUE = "request-space map: raw WSGI requests over callers x bodies x scripted resolver outcomes, judged against the guard list; resolver invocation log as second observation channel"
 LEVEL_TEXT = (
-    "Exploration: the real introspection route (and the disabled-route stub) answered every class combination of caller, body "
+    "Exploration: the real introspection route (and the disabled-route stub) answered every class combination of caller, body (incl. unsecured JWS with an empty signature, RFC 7515) "
     "and resolver outcome once (grid) plus seeded random combinations; status, headers, body bytes and the resolver's "
     "invocation log were compared with the guard list of the property. Held = no counterexample among the requests counted."
 )
